@@ -14,6 +14,7 @@ TRANSPARENT_CALLS = (
     "core::option::Option::<T>::unwrap", "core::option::Option::<T>::expect", "core::option::Option::<&T>::copied",
     "core::option::Option::<&T>::cloned", "core::result::Result::<T, E>::unwrap", "core::result::Result::<T, E>::expect",
     "core::ops::try_trait::Try::branch", "core::option::Option::<T>::unwrap_or", "core::option::Option::<T>::as_deref",
+    "core::option::Option::<T>::ok_or_else", "core::option::Option::<T>::ok_or", "core::result::Result::<T, E>::map_err",
 )
 
 
